@@ -46,9 +46,17 @@ def Delta.isZero (d : Delta) : Bool := d.delta == 0 && d.key == 0
 def entryLe (a b : Entry) : Bool :=
   decide (a.power > b.power) || (a.power == b.power && decide (a.id ≤ b.id))
 
-/-- `sort.Sort(pt)`: canonical table order. (The Go sort is applied to the values of a map, so ids
-are distinct and the result does not depend on the algorithm.) -/
-def canon (t : Table) : Table := t.mergeSort entryLe
+/-- insertion sort (structural recursion, so that closed terms evaluate in the kernel). The Go code
+sorts slices whose elements are pairwise distinct under the order, so the result does not depend on
+the sorting algorithm. -/
+def insertBy {α : Type} (le : α → α → Bool) (x : α) : List α → List α
+  | [] => [x]
+  | y :: ys => if le x y then x :: y :: ys else y :: insertBy le x ys
+
+def sortBy {α : Type} (le : α → α → Bool) (l : List α) : List α := l.foldr (insertBy le) []
+
+/-- `sort.Sort(pt)`: canonical table order. -/
+def canon (t : Table) : Table := sortBy entryLe t
 
 /-- `PowerTableArrayToMap` -/
 def toMap (t : Table) : Table := ofList Entry.id t
@@ -75,11 +83,17 @@ def applyDelta (m : Table) (d : Delta) : Except DiffErr Table :=
     else if d.key == 0 then .error .newNoKey
     else .ok (insert Entry.id ⟨d.id, d.delta, d.key⟩ m)
 
-/-- one diff; `prev` is `lastActorId` (`none` while `i = 0`) -/
+/-- `i > 0 && d.ParticipantID <= lastActorId`; `prev` is `lastActorId` (`none` while `i = 0`) -/
+def outOfOrder (prev : Option Nat) (id : Nat) : Bool :=
+  match prev with
+  | some p => decide (id ≤ p)
+  | none => false
+
+/-- one diff -/
 def applyLoop (m : Table) (prev : Option Nat) : Diff → Except DiffErr Table
   | [] => .ok m
   | d :: ds =>
-    if (match prev with | some p => decide (d.id ≤ p) | none => false) then .error .notSorted
+    if outOfOrder prev d.id then .error .notSorted
     else if d.isZero then .error .emptyDelta
     else match applyDelta m d with
       | .error e => .error e
@@ -100,15 +114,18 @@ def applyDiffs (t : Table) (ds : List Diff) : Except DiffErr Table :=
 
 def applyDiff (t : Table) (d : Diff) : Except DiffErr Table := applyDiffs t [d]
 
+/-- the delta `MakePowerTableDiff` computes for a participant present in both tables -/
+def deltaFor (o e : Entry) : Delta :=
+  ⟨e.id, e.power - o.power, if e.key != o.key then e.key else 0⟩
+
 /-- the loop over `newPowerTable` of `MakePowerTableDiff`: state = (remaining old map, diff so far) -/
 def makeDiffStep (st : Table × Diff) (e : Entry) : Table × Diff :=
   match lookup Entry.id st.1 e.id with
   | some o =>
-    let d : Delta := ⟨e.id, e.power - o.power, if e.key != o.key then e.key else 0⟩
-    (erase Entry.id e.id st.1, if d.isZero then st.2 else st.2 ++ [d])
+    (erase Entry.id e.id st.1, if (deltaFor o e).isZero then st.2 else st.2 ++ [deltaFor o e])
   | none => (st.1, st.2 ++ [⟨e.id, e.power, e.key⟩])
 
-def sortDeltas (l : Diff) : Diff := l.mergeSort (fun a b => decide (a.id ≤ b.id))
+def sortDeltas (l : Diff) : Diff := sortBy (fun a b => decide (a.id ≤ b.id)) l
 
 /-- `MakePowerTableDiff` (result order is determined when the new table has distinct ids) -/
 def makeDiff (old new : Table) : Diff :=
